@@ -155,7 +155,7 @@ def feat_exprs(case, res):
                     ids[t] = len(ids)
                 sel.append(ids[t])
             sels.append(sel)
-            caps.append(b[site]["cap_after"])
+            caps.append(case["caps"][len(caps)])       # the cap given, not what the call left in args
         L = vlib.nlist(range(len(cands)))
         out.append((site, "let L := %s%%nat in let ops := map (fun c => (L, c)) %s in let sels := [%s]%%nat in "
                     "let obs := derived_obs [] sels in (steps_ok [] ops obs, Nat.eqb (length obs) (length ops), "
@@ -174,6 +174,16 @@ def gen_stream_case(rng):
             # no relevance scores to work with, which is outside this property)
             "heuristic": rng.choice(["Constant", "MI-numba-randomized"]),
             "tro": rng.choice(["False", "False", "True"]), "seed": rng.randint(0, 10 ** 6)}
+
+
+def gen_stream_tail_case(rng, used):
+    """One full batch plus a final partial batch: used by the task iff it has more than 1024 rows; its selections count."""
+    nf = rng.randint(3, 4)
+    B = rng.randint(1065, 1100)          # larger than the tail, so the remainder really is a partial batch
+    tail = rng.randint(1025, 1060) if used else rng.randint(900, 1024)
+    return {"kind": "stream", "cols": ["f%d" % i for i in range(1, nf + 1)] + ["label"], "B": B, "nrows": B + tail,
+            "cap": rng.randint(2, 4), "order": rng.choice([1, 2]), "heuristic": rng.choice(["Constant", "MI-numba-randomized"]),
+            "tro": rng.choice(["False", "True"]), "seed": rng.randint(0, 10 ** 6), "tail_used": used}
 
 
 def stream_expr(case, res):
@@ -235,7 +245,11 @@ def pipe_encode(case, res):
                 return None, None, "rows of pair %s do not come in both orientations" % sorted(u)
             key = by_unordered.get(u, tuple(sorted(u)) if len(u) == 2 else tuple(u) * 2)
             sel += [kid(key)] * (n // per_eval)
-        ops.append("(%s%%nat, %s%%Z)" % (vlib.nlist([kid(c) for c in L]), vlib.zlit(o["cap_after"])))
+        # the cap the batch was GIVEN, clamped to MAX_FEATURES_3MR = 10^4 for 3mr heuristics (the documented clamp, C06_3mr_clamp);
+        # not the value found in args afterwards: a call site that raises the cap must not thereby legitimise what it evaluated
+        given = case["caps"][len(ops)]
+        cap_eff = min(given, 10 ** 4) if "3mr" in case["heuristic"] else given
+        ops.append("(%s%%nat, %s%%Z)" % (vlib.nlist([kid(c) for c in L]), vlib.zlit(cap_eff)))
         cn = "[" + "; ".join("(%d, %d)" % (kid(k), v) for k, v in o["counter"]) + "]"
         obs.append("(%s%%nat, %s%%nat)" % (vlib.nlist(sel), cn))
     return "[" + "; ".join(ops) + "]", "[" + "; ".join(obs) + "]", None
@@ -378,6 +392,8 @@ def check(run, replay):
     if replay is None:
         feat_cases = [gen_feat_case(run.rng) for _ in range(40 if run.tier == "quick" else 300)]
         stream_cases = [gen_stream_case(run.rng) for _ in range(12 if run.tier == "quick" else 80)]
+        for _ in range(1 if run.tier == "quick" else 4):
+            stream_cases += [gen_stream_tail_case(run.rng, True), gen_stream_tail_case(run.rng, False)]
     else:
         feat_cases = [replay["case"]] if rk == "feat" else []
         stream_cases = [replay["case"]] if rk == "stream" else []
